@@ -458,9 +458,19 @@ def reject_indefinite_length(data: bytes) -> None:
     puresnmp.exc.SnmpError: Indefinite length encoding at offset 0 ...
     """
     regions = [(0, len(data))]
+    # Every value takes at least two octets. A well-formed packet can not
+    # contain more values than that (values which overlap each other can).
+    remaining_values = len(data) // 2 + 1
     while regions:
         pos, end = regions.pop()
-        while pos + 1 < end:
+        # The decoder does not confine a value to the value that contains it:
+        # it reads the length of a value which starts on the last octet of
+        # its container from *behind* the container, and it follows lengths
+        # that reach beyond the container. So we must do the same here.
+        while pos < end and pos + 1 < len(data):
+            remaining_values -= 1
+            if remaining_values < 0:
+                raise SnmpError("Malformed packet (overlapping values)")
             length_octet = data[pos + 1]
             if length_octet == 0x80:
                 raise SnmpError(
@@ -474,7 +484,7 @@ def reject_indefinite_length(data: bytes) -> None:
                 num_octets = length_octet & 0x7F
                 start = pos + 2 + num_octets
                 stop = start + int.from_bytes(data[pos + 2 : start], "big")
-            if stop > end:
+            if stop > len(data):
                 # broken packet: the decoder will complain
                 break
             if data[pos] & 0x20:
